@@ -357,7 +357,7 @@ def run(tier):
     hist = gen_histories(ck, cfg["nhist"], cfg["steps"])
 
     def trace_job():
-        recs2 = vseam.run_parallel(exe, hist, nproc=3)
+        recs2 = vseam.rerun_hung(exe, hist, vseam.run_parallel(exe, hist, nproc=3))
         acc, found, trans, nev = validate("main", hist, recs2)
         by2 = vlib.group_records(recs2)
         keys = set(callseq(beh) for b, beh in enumerate(hist) if nontrivial(beh, by2.get(b, [])))
@@ -373,7 +373,7 @@ def run(tier):
     vlib.log("C15 %d behaviours exported in %.1fs" % (len(behs), gen.wall))
     recs = vseam.run_parallel(exe, behs, nproc=6)
     by = vlib.group_records(recs)
-    mms = vlib.compare(behs, recs, match)
+    mms = vseam.recheck_transient(exe, behs, vlib.compare(behs, recs, match), match)
     seen = {}
     for mm in mms:
         sig = sig_of(kind_of(behs[mm["b"]]), mm["step"], mm["why"])
